@@ -1762,3 +1762,69 @@ R("removeaccount-zero-via-local", ["C17"],
 		if err := nak.balances.SetBalance(account.Address, zero); err != nil {
 			nak.logger.Error("failed to clear balance", err)
 		}"""))
+
+# ------------------------------------------------------------------ C13
+CALC = "data/rewards/calculator.go"
+RCUM = "data/rewards/store_cumulative.go"
+M("calculate-from-live-counter", "C13", "C13.schedule",
+  (CALC, """	yearDistributed := calc.rewardYears.Years[year].TillLastCycle""", """	yearDistributed := calc.rewardYears.Years[year].Distributed"""))
+M("snapshot-taken-every-block", "C13", "C13.schedule",
+  (RCUM, """	if lastInCycle {
+		rewardYears.Years[year].TillLastCycle = rewardYears.Years[year].Distributed""", """	if lastInCycle || year >= 0 {
+		rewardYears.Years[year].TillLastCycle = rewardYears.Years[year].Distributed"""))
+M("validator-share-from-store-power", "C13", "C13.powers",
+  (CTRL, """			rewardAmount := getRewardForValidator(totalPower, validatorPowerMap[valAddress.String()], totalRewards)""",
+   """			rewardAmount := getRewardForValidator(totalPower, big.NewInt(val.Power), totalRewards)"""))
+M("credited-amount-not-consumed", "C13", "C13.consume",
+  (CTRL, """			//Add to Consumed amount
+			totalConsumed = totalConsumed.Plus(*amount)
+""", """			//Add to Consumed amount
+			totalConsumed = totalConsumed.Plus(*rewardAmount)
+"""))
+M("consume-skipped-without-delegators", "C13", "C13.consume",
+  (CTRL, """	//pass total consumed amount to cumulative db
+	_ = rewardMaster.RewardCm.ConsumeRewards(totalConsumed)""", """	//pass total consumed amount to cumulative db
+	if delegationPower.Sign() == 0 {
+		return result
+	}
+	_ = rewardMaster.RewardCm.ConsumeRewards(totalConsumed)"""))
+M("burnout-cap-dropped", "C13", "C13.cap",
+  (RCUM, """	if burnedout && poolAmt.LessThan(*amount) {
+		*amount = *poolAmt
+	}""", """	if burnedout && poolAmt.LessThan(*amount) {
+		logger.Detailf("rewards pool is running dry: %s", poolAmt)
+	}"""))
+M("withdraw-books-before-debit", "C13", "C13.withdraw",
+  (RCUM, """	err := rws.minusRewardsBalance(validator, amount)
+	if err != nil {
+		return errors.Wrap(err, "Minus from Matured Balance")
+	}
+	err = rws.addWithdrawnRewards(validator, amount)""", """	err := rws.minusRewardsBalance(validator, amount)
+	if err != nil {
+		logger.Error("Minus from Matured Balance", err)
+	}
+	err = rws.addWithdrawnRewards(validator, amount)"""))
+M("dump-total-matured", "C13", "C13.dump",
+  (RCUM, """		matured := RewardAmount{
+			Address: addr,
+			Amount:  amt,
+		}""", """		total, _ := rws.GetMaturedRewards(addr)
+		matured := RewardAmount{
+			Address: addr,
+			Amount:  total,
+		}"""))
+M("load-withdrawn-as-balance", "C13", "C13.dump",
+  (RCUM, """		err = rws.addWithdrawnRewards(draw.Address, draw.Amount)""", """		err = rws.AddMaturedBalance(draw.Address, draw.Amount)"""))
+M("delegator-share-rounded-up", "C13", "C13.floor",
+  (CTRL, """		delegatorReward := balance.NewAmountFromBigInt(big.NewInt(0).Div(numerator, delegCtx.DelegationPower))""",
+   """		q := big.NewInt(0).Div(numerator, delegCtx.DelegationPower)
+		delegatorReward := balance.NewAmountFromBigInt(q.Add(q, big.NewInt(1)))"""))
+R("calculate-snapshot-local", ["C13"],
+  (CALC, """	yearDistributed := calc.rewardYears.Years[year].TillLastCycle
+	yearLeft, err := yearSupply.Minus(*yearDistributed)""", """	ry := calc.rewardYears.Years[year]
+	snapshot := ry.TillLastCycle
+	yearLeft, err := yearSupply.Minus(*snapshot)"""))
+R("consume-error-logged", ["C13", "C12"],
+  (CTRL, """	_ = rewardMaster.RewardCm.ConsumeRewards(totalConsumed)""", """	if err := rewardMaster.RewardCm.ConsumeRewards(totalConsumed); err != nil {
+		logger.Error("failed to book consumed rewards", err)
+	}"""))
